@@ -24,15 +24,19 @@ InitD == [mode |-> "read", nums |-> <<>>, cx |-> 0, cy |-> 0, rows |-> <<>>, hse
 Width(d) == IF d.rows = <<>> THEN 0 ELSE d.rows[1]
 Bit(mask, i) == (mask \div (2 ^ i)) % 2 = 1
 
-\* translate_sixel_to_pixel, n times in a row (n = 1 for a plain data character)
+\* translate_sixel_to_pixel, n times in a row (n = 1 for a plain data character).  Pixels outside of MaxDim x MaxDim are
+\* dropped: a cursor moved there (repeated '-', long rows) only advances.
 TranslateN(d, c, n) ==
   IF c < 63 THEN [d EXCEPT !.err = TRUE]
   ELSE LET mask == c - 63
            y0 == d.cy * 6
-           last == IF d.hset /\ y0 + 6 > Len(d.rows) THEN Len(d.rows) ELSE y0 + 6
-           r1 == IF Len(d.rows) < last THEN d.rows \o Repeat(Width(d), last - Len(d.rows)) ELSE d.rows
-           r2 == [j \in 1..Len(r1) |-> IF j - 1 >= y0 /\ j - 1 < last /\ j - 1 - y0 <= 5 /\ Bit(mask, j - 1 - y0) THEN Max2(r1[j], d.cx + n) ELSE r1[j]] \o <<>>
-       IN [d EXCEPT !.rows = r2, !.cx = d.cx + n]
+       IN IF d.cx >= MaxDim \/ y0 >= MaxDim THEN [d EXCEPT !.cx = d.cx + n]
+          ELSE LET last0 == Min2(y0 + 6, MaxDim)
+                   last == IF d.hset /\ last0 > Len(d.rows) THEN Len(d.rows) ELSE last0
+                   r1 == IF Len(d.rows) < last THEN d.rows \o Repeat(Width(d), last - Len(d.rows)) ELSE d.rows
+                   xe == Min2(d.cx + n, MaxDim)
+                   r2 == [j \in 1..Len(r1) |-> IF j - 1 >= y0 /\ j - 1 < last /\ j - 1 - y0 <= 5 /\ Bit(mask, j - 1 - y0) THEN Max2(r1[j], xe) ELSE r1[j]] \o <<>>
+               IN [d EXCEPT !.rows = r2, !.cx = d.cx + n]
 Translate(d, c) == TranslateN(d, c, 1)
 \* parse_sixel_data
 Data(d, c) ==
